@@ -19,6 +19,19 @@ CHECKS = {
         ref='DESIGN.md section 5, C16'),
 }
 
+CHECKS['C15'] = dict(
+    text='Lean 4 theorems about the model of Document.__init__ line normalisation: for every text whose only '
+         'terminator is \\n, str.splitlines(keepends)+completion equals the list-of-lines and the file-iteration '
+         'form, and a final newline after a non-empty last line changes nothing; everything downstream is a function '
+         'of that line list. Tied to the code by capturing the line list the real Document hands to the tokenizer '
+         '(str, list, StringIO, real file), by an every-code-point comparison of the splitlines separator table '
+         '(regenerated from the running interpreter), and by running the real CLI on files.',
+    note='Trusted: Lean kernel (axioms propext/Classical.choice/Quot.sound at most); CPython file iteration and the '
+         'CLI (argparse/open/stdout) are exercised by correspondence, not modelled; final-newline clause read for '
+         'texts with a non-empty last line.',
+    technique='Lean 4 proof (induction over the character list) + correspondence on captured line lists + CLI runs',
+    ref='DESIGN.md section 5, C15')
+
 NOT_YET = {}
 
 
